@@ -8,6 +8,10 @@
 // the store: strictly increasing; waste bounded by one interval per crashed/abandoned
 // object; no waste after a clean Release.
 //
+// User code under the Sequence (user.go): store calls that panic and are recovered by the caller
+// who keeps the object, store errors reported after the call was applied, a store that keeps the
+// slices it is given, kvstore/debug callbacks that panic, re-entrant calls from inside a store call.
+//
 // Concurrent part (children, plain and -race): 2–16 goroutines calling Next on one
 // Sequence, several object generations per store.
 package main
@@ -62,6 +66,13 @@ type crashAt struct {
 	Site  int  `json:"site"`
 	After bool `json:"after"`
 	Fail  bool `json:"fail,omitempty"`
+	// Cont (user.go): the store call PANICS (before / after applying it, as After says) with a user
+	// panic; the caller recovers it and keeps using the SAME Sequence object.
+	Cont bool `json:"cont,omitempty"`
+	// Reent (user.go): no fault; the user code under the Sequence (store wrapper) calls, inside the
+	// window of this store call and before it is applied, Release on the most recently parked
+	// (lease-less) object of the same key.
+	Reent bool `json:"reent,omitempty"`
 }
 
 type seqCase struct {
@@ -69,6 +80,10 @@ type seqCase struct {
 	Ops       []string  `json:"ops"`
 	Crashes   []crashAt `json:"crashes"`
 	Trace     string    `json:"trace,omitempty"` // observed (informational)
+	// Store (user.go) selects the user code under the Sequence: "" = mapdb behind faultkv,
+	// "retain" = a store that keeps the slices it is given / hands out its own slices, behind faultkv,
+	// "debug" = mapdb under kvstore/debug whose AccessCallback is the fault site (panics only).
+	Store string `json:"store,omitempty"`
 }
 
 type violation struct {
@@ -89,6 +104,17 @@ type seqResult struct {
 	earlyOpened, earlyUsed   int  // successors constructed early / later used as the owner
 	earlyOpenedMidLease      int  // … constructed while the current owner held a lease
 	openErrors               int  // NewSequence returned an error
+	postFails                int  // store calls that were applied and then reported the injected error
+	panicsRecovered          int  // store calls that panicked, recovered by the caller, same object kept in use
+	usesAfterPanic           int  // Next / Release calls on an object after a recovered panic out of it
+	issuedAfterPanic         int  // numbers issued by an object after a recovered panic out of it
+	panicThenCrash           bool // a crash / restart followed a recovered panic
+	reentCalls               int  // Release of a parked object made from inside a store call of the owner
+	reentOwnerMidLease       int  // … while the owner held a lease
+	undemandedReuse          int  // reuse after a recovered panic out of Release's applied write (not demanded, see user.go)
+	keyChecks                int  // comparisons of the caller's key slice with its copy
+	retainChecks             int  // retaining store: persisted slices compared with their value at Set time
+	retainDrift              int  // … and found changed (evidence; the number oracle decides)
 	issued                   int
 	events                   int // crash / restart / release between first and last issued number
 	trace                    string
@@ -122,28 +148,69 @@ func call(f func()) (crashed *faultkv.Crash, other string) {
 // runSeq executes one history with one crash plan on a fresh store.
 func runSeq(cs seqCase) seqResult {
 	var res seqResult
-	inner := mapdb.NewMapDB()
 	plan := map[int]faultkv.Action{}
+	contSites := map[int]bool{}  // panics the caller recovers from, keeping the object
+	reentSites := map[int]bool{} // store calls inside which a parked object is Released
+	postFail := map[int]bool{}   // store calls that are applied and then report the injected error
 	for _, c := range cs.Crashes {
-		if c.Fail {
+		switch {
+		case c.Reent:
+			reentSites[c.Site] = true
+		case c.Fail && c.After:
+			postFail[c.Site] = true
+		case c.Fail:
 			plan[c.Site] = faultkv.Fail
-		} else if c.After {
+		case c.After:
 			plan[c.Site] = faultkv.CrashAfter
-		} else {
+		default:
 			plan[c.Site] = faultkv.CrashBefore
+		}
+		if c.Cont {
+			contSites[c.Site] = true
 		}
 	}
 	in := faultkv.NewInjector(plan, false)
-	st := faultkv.Wrap(inner, in)
+	inner, st, rk := userStore(cs.Store, in)
+	var pf *postFailKV
+	if len(postFail) > 0 {
+		pf = &postFailKV{KVStore: st, in: in, sites: postFail}
+		st = pf
+	}
+	firedCount := func() int {
+		if pf != nil {
+			return in.FiredCount() + pf.count
+		}
+		return in.FiredCount()
+	}
+	// faults that fired inside a re-entrant call made from a store call belong to that call, not to the
+	// operation around it
+	nestedFired := 0
+	ownFired := func() int { return firedCount() - nestedFired }
+	// lastFault: site, kind and class of the store error that was returned last
+	lastFault := func() (int, string, string) {
+		if pf != nil && pf.pending {
+			pf.pending = false
+			return pf.last.Site, pf.last.Kind, "fail-after-apply"
+		}
+		f := in.Fired()
+		if len(f) == 0 {
+			return 0, "?", "fail"
+		}
+		return f[len(f)-1].Site, f[len(f)-1].Kind, "fail"
+	}
+	callerKey := append([]byte(nil), seqKey...) // the caller's own key slice (the Sequence keeps it by design)
 
 	interval := cs.Interval0
 	var obj *kvstore.Sequence
-	objNexts := 0       // successful Next calls on this object
-	objTouched := false // the object attempted Next/Release since creation or its last clean Release
-	objFailed := false  // a store call of this object returned an injected error
-	objPicked := false  // the object was parked after a clean Release and is in use again
-	last := int64(-1)   // last issued number
-	slack := int64(0)   // numbers that may legitimately be skipped before the next issued one
+	objNexts := 0        // successful Next calls on this object
+	objTouched := false  // the object attempted Next/Release since creation or its last clean Release
+	objFailed := false   // a store call of this object returned an injected error
+	objPicked := false   // the object was parked after a clean Release and is in use again
+	objPanicked := false // a user panic came out of a call on this object, was recovered, and the object is still in use
+	objPanicKind := ""   // … out of which call / store call / side
+	objPostFailed := ""  // a store call of this object was applied and then reported an error: which
+	last := int64(-1)    // last issued number
+	slack := int64(0)    // numbers that may legitimately be skipped before the next issued one
 	type parkedObj struct {
 		seq             *kvstore.Sequence
 		interval, nexts int
@@ -173,7 +240,7 @@ func runSeq(cs seqCase) seqResult {
 		for tries := 0; tries < 32; tries++ {
 			var sq *kvstore.Sequence
 			var err error
-			cr, other := call(func() { sq, err = kvstore.NewSequence(st, seqKey, uint64(iv)) })
+			cr, other := call(func() { sq, err = kvstore.NewSequence(st, callerKey, uint64(iv)) })
 			switch {
 			case other != "":
 				openErr = "NewSequence panicked: " + other
@@ -211,7 +278,7 @@ func runSeq(cs seqCase) seqResult {
 		} else {
 			obj = openSeq(interval)
 		}
-		objNexts, objTouched, objFailed, objPicked = 0, false, false, false
+		objNexts, objTouched, objFailed, objPicked, objPanicked, objPostFailed = 0, false, false, false, false, ""
 	}
 	abandon := func(why string) {
 		if objTouched {
@@ -219,21 +286,53 @@ func runSeq(cs seqCase) seqResult {
 		}
 		sinceLast = append(sinceLast, why)
 		freshObject()
-		objNexts, objTouched, objFailed, objPicked = 0, false, false, false
+		objNexts, objTouched, objFailed, objPicked, objPanicked, objPostFailed = 0, false, false, false, false, ""
 		res.crashesFired++
 		if res.failsFired > 0 {
 			res.failThenCrash = true
 		}
+		if res.panicsRecovered > 0 {
+			res.panicThenCrash = true
+		}
+	}
+	// recovered handles a Next/Release out of which a user panic of the store call came that the
+	// caller recovered: nothing was issued / released, the SAME object stays in use. Like a store
+	// error it may waste one interval (the store may have applied a reservation the object did
+	// not take note of); reuse stays strict.
+	recovered := func(opName string, cr *faultkv.Crash) {
+		fmt.Fprintf(&tr, "%s~%d%s ", opName[:1], cr.Site, ba(cr.After))
+		res.firedKinds = append(res.firedKinds, opName+":"+cr.Kind+":panic-"+ba(cr.After)+"-recovered")
+		res.panicsRecovered++
+		objFailed, objPanicked = true, true
+		objPanicKind = opName + ":" + cr.Kind + ":" + ba(cr.After)
+		slack += int64(interval)
+		sinceLast = append(sinceLast, "recovered-panic")
+	}
+	// keyIntact: the key slice handed to NewSequence belongs to the caller; no call may write into it.
+	keyIntact := func() bool {
+		res.keyChecks++
+		if rk != nil {
+			res.retainChecks++
+			if rk.drifted() {
+				res.retainDrift++
+			}
+		}
+		return string(callerKey) == string(seqKey)
 	}
 	// storeError handles a Next/Release that returned the injected store error: nothing was
 	// issued / released, the object stays in use. The statement does not say how much a
 	// failed reservation may waste, so the waste bound is relaxed by one interval (reuse
 	// stays strict).
 	storeError := func(opName string, err error) {
-		f := in.Fired()
-		k := f[len(f)-1]
-		fmt.Fprintf(&tr, "%s?%d ", opName[:1], k.Site)
-		res.firedKinds = append(res.firedKinds, opName+":"+k.Kind+":fail")
+		site, kind, class := lastFault()
+		if class == "fail" {
+			fmt.Fprintf(&tr, "%s?%d ", opName[:1], site)
+		} else {
+			fmt.Fprintf(&tr, "%s?%dapplied ", opName[:1], site)
+			res.postFails++
+			objPostFailed = opName + ":" + kind + ":" + class
+		}
+		res.firedKinds = append(res.firedKinds, opName+":"+kind+":"+class)
 		res.failsFired++
 		objFailed = true
 		slack += int64(interval)
@@ -252,8 +351,65 @@ func runSeq(cs seqCase) seqResult {
 		res.viol = &violation{fp, what}
 		res.trace = tr.String()
 		res.sites = in.Sites()
-		res.fired = in.FiredCount()
+		res.fired = firedCount()
 		return res
+	}
+
+	// re-entrant user code: inside the window of a chosen store call (before it is applied) the store
+	// wrapper Releases the most recently parked lease-less object of the same key – a call that
+	// returns and changes nothing on the unchanged tree, also from there.
+	var reentViol *violation
+	var busy *kvstore.Sequence // the object whose Next / Release is in progress
+	touchedBefore := false     // the owner had attempted Next / Release before the operation that is running now
+	if len(reentSites) > 0 {
+		inHook := false
+		in.Hook = func(site int, kind string) {
+			if !reentSites[site] || inHook {
+				return
+			}
+			n := len(parked)
+			if n == 0 {
+				res.redundant = true
+				return
+			}
+			pk := parked[n-1]
+			if pk.seq == busy {
+				// the call in progress is a (late) Release of that very object: calling it again from inside
+				// would be same-object re-entrancy, which self-dead-locks by design (see the probe in user.go)
+				return
+			}
+			inHook = true
+			defer func() { inHook = false }()
+			res.reentCalls++
+			if touchedBefore {
+				res.reentOwnerMidLease++
+			}
+			var err error
+			f0 := firedCount()
+			cr, other := call(func() { err = pk.seq.Release() })
+			nestedFired += firedCount() - f0
+			fmt.Fprintf(&tr, "[%d:parked.Release] ", site)
+			switch {
+			case other != "":
+				reentViol = &violation{"Release/panic", "Release of a parked object called from inside store call #" + strconv.Itoa(site) + " (" + kind + ") panicked: " + other}
+			case cr != nil:
+				// a later planned fault hit a store call made by that Release: that object's process died
+				parked = parked[:n-1]
+				slack += int64(pk.interval)
+				sinceLast = append(sinceLast, "crash")
+				res.crashesFired++
+			case err != nil && errors.Is(err, faultkv.ErrInjected):
+				lastFault() // consumed here
+				res.failsFired++
+				slack += int64(pk.interval)
+				sinceLast = append(sinceLast, "store-error")
+			case err != nil:
+				reentViol = &violation{"Release/unexpected-error", fmt.Sprintf("Release of a parked object called from inside store call #%d (%s) returned error %v on a healthy store", site, kind, err)}
+			default:
+				sinceLast = append(sinceLast, "late-release")
+			}
+			checkMark("re-entrant-Release-of-parked-object-from-inside-a-store-call")
+		}
 	}
 
 	obj = openSeq(interval)
@@ -278,11 +434,28 @@ func runSeq(cs seqCase) seqResult {
 		case op == "N":
 			var v uint64
 			var err error
+			touchedBefore = objTouched
 			objTouched, objExhausted = true, false
-			firedBefore := in.FiredCount()
+			firedBefore := ownFired()
+			if objPanicked {
+				res.usesAfterPanic++
+			}
+			busy = obj
 			cr, other := call(func() { v, err = obj.Next() })
+			busy = nil
 			if other != "" {
 				return fail("Next/panic", fmt.Sprintf("step %d: Next panicked: %s", i, other))
+			}
+			if !keyIntact() {
+				return fail("key-argument-changed", fmt.Sprintf("step %d: after Next the caller's key slice reads %q (it was %q); trace: %s", i, callerKey, seqKey, tr.String()))
+			}
+			if reentViol != nil {
+				return fail(reentViol.fp, fmt.Sprintf("step %d (Next): %s; trace: %s", i, reentViol.what, tr.String()))
+			}
+			if cr != nil && contSites[cr.Site] {
+				recovered("Next", cr)
+				checkMark("recovered-panic-in-Next")
+				continue
 			}
 			if cr != nil {
 				fmt.Fprintf(&tr, "N!%d%s ", cr.Site, ba(cr.After))
@@ -299,7 +472,7 @@ func runSeq(cs seqCase) seqResult {
 			if err != nil {
 				return fail("Next/unexpected-error", fmt.Sprintf("step %d: Next returned error %v on a healthy store", i, err))
 			}
-			if in.FiredCount() > firedBefore {
+			if ownFired() > firedBefore {
 				return fail("Next/store-error-not-reported", fmt.Sprintf("step %d: a store call failed inside Next but Next returned %d, nil", i, v))
 			}
 			fmt.Fprintf(&tr, "N=%d ", v)
@@ -307,6 +480,15 @@ func runSeq(cs seqCase) seqResult {
 				cause := regressBy
 				if cause == "" {
 					cause = "none-observed"
+				}
+				if !demandLeaseGivenUpWhenReleaseWritePanics && strings.Contains(cause, undemandedCause) {
+					// scope rule of DISCIPLINES.md: the statement says nothing about user code that panics, and
+					// the unchanged tree does not guarantee this case today – recorded, not demanded
+					res.undemandedReuse++
+					res.trace = tr.String()
+					res.sites = in.Sites()
+					res.fired = firedCount()
+					return res
 				}
 				if objPicked {
 					cause += "(object-in-use-again-after-its-Release)"
@@ -317,7 +499,7 @@ func runSeq(cs seqCase) seqResult {
 			if gap := int64(v) - last - 1; gap > slack {
 				cls := "gap-without-crash"
 				for _, e := range sinceLast {
-					if e == "crash" || e == "restart" || e == "store-error" {
+					if e == "crash" || e == "restart" || e == "store-error" || e == "recovered-panic" {
 						cls = "waste-exceeds-one-interval-per-crash"
 					}
 				}
@@ -343,7 +525,12 @@ func runSeq(cs seqCase) seqResult {
 			if m, ok := readMark(inner); ok && m == v+1 && !objFailed {
 				objExhausted = true
 			}
-			if objFailed {
+			if objPanicked {
+				res.issuedAfterPanic++
+				checkMark("Next(same-object-after-recovered-panic-out-of-" + objPanicKind + ")")
+			} else if objPostFailed != "" {
+				checkMark("Next(same-object-after-" + objPostFailed + ")")
+			} else if objFailed {
 				checkMark("Next(after-store-error-on-same-object)")
 			} else {
 				checkMark("Next")
@@ -354,11 +541,28 @@ func runSeq(cs seqCase) seqResult {
 			if objNexts == 0 {
 				cls = "Release(object-never-called-Next)"
 			}
+			touchedBefore = objTouched
 			objTouched, objExhausted = true, false
-			firedBefore := in.FiredCount()
+			firedBefore := ownFired()
+			if objPanicked {
+				res.usesAfterPanic++
+			}
+			busy = obj
 			cr, other := call(func() { err = obj.Release() })
+			busy = nil
 			if other != "" {
 				return fail("Release/panic", fmt.Sprintf("step %d: Release panicked: %s", i, other))
+			}
+			if !keyIntact() {
+				return fail("key-argument-changed", fmt.Sprintf("step %d: after Release the caller's key slice reads %q (it was %q); trace: %s", i, callerKey, seqKey, tr.String()))
+			}
+			if reentViol != nil {
+				return fail(reentViol.fp, fmt.Sprintf("step %d (Release): %s; trace: %s", i, reentViol.what, tr.String()))
+			}
+			if cr != nil && contSites[cr.Site] {
+				recovered("Release", cr)
+				checkMark("recovered-panic-in-" + cls)
+				continue
 			}
 			if cr != nil {
 				fmt.Fprintf(&tr, "R!%d%s ", cr.Site, ba(cr.After))
@@ -375,7 +579,7 @@ func runSeq(cs seqCase) seqResult {
 			if err != nil {
 				return fail("Release/unexpected-error", fmt.Sprintf("step %d: Release returned error %v on a healthy store", i, err))
 			}
-			if in.FiredCount() > firedBefore {
+			if ownFired() > firedBefore {
 				return fail("Release/store-error-not-reported", fmt.Sprintf("step %d: a store call failed inside Release but Release returned nil", i))
 			}
 			tr.WriteString("R ")
@@ -393,8 +597,11 @@ func runSeq(cs seqCase) seqResult {
 			if res.failsFired > 0 {
 				res.failThenRestart = true
 			}
+			if res.panicsRecovered > 0 {
+				res.panicThenCrash = true
+			}
 			obj = openSeq(interval)
-			objNexts, objTouched, objFailed, objPicked = 0, false, false, false
+			objNexts, objTouched, objFailed, objPicked, objPanicked, objPostFailed = 0, false, false, false, false, ""
 		case op == "L":
 			n := len(parked)
 			if n == 0 {
@@ -409,9 +616,21 @@ func runSeq(cs seqCase) seqResult {
 			}
 			cls := "late-Release(on an object without lease, another object owns the key)"
 			var err error
+			busy = pk.seq
 			cr, other := call(func() { err = pk.seq.Release() })
+			busy = nil
 			if other != "" {
 				return fail("Release/panic", fmt.Sprintf("step %d: late Release panicked: %s", i, other))
+			}
+			if cr != nil && contSites[cr.Site] {
+				// the caller of the parked object recovered the panic: the object stays parked
+				fmt.Fprintf(&tr, "L~%d%s ", cr.Site, ba(cr.After))
+				res.firedKinds = append(res.firedKinds, "LateRelease:"+cr.Kind+":panic-"+ba(cr.After)+"-recovered")
+				res.panicsRecovered++
+				slack += int64(pk.interval)
+				sinceLast = append(sinceLast, "recovered-panic")
+				checkMark(cls)
+				continue
 			}
 			if cr != nil {
 				// the process of the parked object died inside its Release; the current owner is not affected
@@ -425,9 +644,9 @@ func runSeq(cs seqCase) seqResult {
 				continue
 			}
 			if err != nil && errors.Is(err, faultkv.ErrInjected) {
-				f := in.Fired()
-				fmt.Fprintf(&tr, "L?%d ", f[len(f)-1].Site)
-				res.firedKinds = append(res.firedKinds, "LateRelease:"+f[len(f)-1].Kind+":fail")
+				site, kind, class := lastFault()
+				fmt.Fprintf(&tr, "L?%d ", site)
+				res.firedKinds = append(res.firedKinds, "LateRelease:"+kind+":"+class)
 				res.failsFired++
 				slack += int64(pk.interval)
 				sinceLast = append(sinceLast, "store-error")
@@ -447,13 +666,16 @@ func runSeq(cs seqCase) seqResult {
 			if res.failsFired > 0 {
 				res.failThenRestart = true
 			}
+			if res.panicsRecovered > 0 {
+				res.panicThenCrash = true
+			}
 			if early != nil {
 				freshObject()
 			} else if n > 0 {
 				pk := parked[n-1]
 				parked = append(parked[:n-1], parked[n:]...)
 				obj, interval, objNexts = pk.seq, pk.interval, pk.nexts
-				objTouched, objFailed, objPicked = false, false, pk.nexts > 0
+				objTouched, objFailed, objPicked, objPanicked, objPostFailed = false, false, pk.nexts > 0, false, ""
 				fmt.Fprintf(&tr, "B(back,i=%d) ", interval)
 			} else {
 				freshObject()
@@ -469,7 +691,7 @@ func runSeq(cs seqCase) seqResult {
 	}
 	res.trace = tr.String()
 	res.sites = in.Sites()
-	res.fired = in.FiredCount()
+	res.fired = firedCount()
 	return res
 }
 
@@ -650,6 +872,9 @@ func flushViols(c *vf.Ctx) {
 		return strings.Join(x.Ops, "") < strings.Join(y.Ops, "")
 	})
 	for _, p := range pendingViols {
+		if os.Getenv("C07_LIST_FPS") != "" {
+			fmt.Fprintln(os.Stderr, "FP "+p.FP)
+		}
 		if p.Raw != nil {
 			c.Violation(p.FP, p.What, p.Raw)
 		} else {
@@ -1094,6 +1319,10 @@ func child(c *vf.Ctx) {
 		xkeyChild(c)
 	case "wide":
 		wideChild(c)
+	case "user":
+		userChild(c)
+	case "reentprobe":
+		reentProbeChild(c)
 	case "replay":
 		c.Replay = c.ChildArgs[0]
 		replayChild(c)
@@ -1115,6 +1344,10 @@ func replay(c *vf.Ctx) {
 	res := c.RunChild(vf.ChildOpts{Name: "replay", Args: []string{c.Replay}, Timeout: 2 * time.Minute})
 	for _, l := range res.Lines {
 		fmt.Fprintln(os.Stderr, l)
+	}
+	if res.Deadlock {
+		c.Violation(fpNeverReturns, "replayed case: a Next / Release call never returns (plain build, Go runtime: all goroutines are asleep)", cs)
+		return
 	}
 	if res.TimedOut || res.ExitCode != 0 {
 		c.Inconclusive(fmt.Sprintf("replay child died (%s, exit code %d); stderr: %s", res.Fatal, res.ExitCode, res.StderrPath))
@@ -1162,7 +1395,7 @@ func run(c *vf.Ctx) {
 		replay(c)
 		return
 	}
-	c.SetRule("sequential: every history over {Next, Release, Restart(interval in 1,2,3,7), Back (the key is handed back to an earlier object that was cleanly Released; objects keep their own interval; only one object ever holds a lease)} up to the exhaustive length, for each initial interval, is executed without a crash and with an injected fault at every store call it makes: a crash before / after applying it (panic, object abandoned, fresh NewSequence on the same store) or a store error (sentinel returned, not applied, the same object keeps being used) (pairs of crash points for the shorter lengths; longer histories sampled from the seed with 1-3 crashes); one evaluation = one execution of a (history, crash plan); distinct_nontrivial = distinct crash-free histories in which at least two numbers were issued with a crash/restart/release between the first and the last of them. wide: the same kind of histories over {Next, Release, Switch} with intervals and starting marks on the boundaries of the uint64 range (2^31, 2^32, 2^63 +-1, MaxUint64-k; a starting mark is produced by an earlier owner through the API), exact uint64 oracle, one evaluation = one (history, fault plan). concurrent: one evaluation = one Next call made while 2-16 goroutines share the Sequence")
+	c.SetRule("sequential: every history over {Next, Release, Restart(interval in 1,2,3,7), Back (the key is handed back to an earlier object that was cleanly Released; objects keep their own interval; only one object ever holds a lease)} up to the exhaustive length, for each initial interval, is executed without a crash and with an injected fault at every store call it makes: a crash before / after applying it (panic, object abandoned, fresh NewSequence on the same store) or a store error (sentinel returned, not applied, the same object keeps being used) (pairs of crash points for the shorter lengths; longer histories sampled from the seed with 1-3 crashes); one evaluation = one execution of a (history, crash plan); distinct_nontrivial = distinct crash-free histories in which at least two numbers were issued with a crash/restart/release between the first and the last of them. wide: the same kind of histories over {Next, Release, Switch} with intervals and starting marks on the boundaries of the uint64 range (2^31, 2^32, 2^63 +-1, MaxUint64-k; a starting mark is produced by an earlier owner through the API), exact uint64 oracle, one evaluation = one (history, fault plan). user code (user.go): the same histories with, at every store call, a PANIC (before / after applying the call) that the caller recovers while it keeps using the same object, a store error reported AFTER the call was applied, or a re-entrant Release of a parked object from inside the call; on mapdb behind the harness store, on a store that keeps the slices it is given and hands out its own, and under kvstore/debug whose AccessCallback panics; one evaluation = one (history, fault plan, store). concurrent: one evaluation = one Next call made while 2-16 goroutines share the Sequence")
 	// several keys in one process, renewals nested inside another key's Set window (deterministic);
 	// runs next to the sequential children
 	xkDone := make(chan struct{})
@@ -1192,9 +1425,16 @@ func run(c *vf.Ctx) {
 		defer close(wideDone)
 		widePart(c)
 	}()
+	// user code under the Sequence: recovered panics, retaining store, re-entrant calls (user.go)
+	userDone := make(chan struct{})
+	go func() {
+		defer close(userDone)
+		userPart(c)
+	}()
 	sequentialPart(c)
 	<-xkDone
 	<-wideDone
+	<-userDone
 	flushViols(c)
 	c.SetExhaustive(true)
 
@@ -1241,6 +1481,20 @@ func run(c *vf.Ctx) {
 	c.Require("wide_runs_interval_above_maxint64_two_or_more_next_on_one_object", 10000)
 	c.Require("wide_runs_lease_crossing_2^32_or_2^63", 100)
 	c.Require("wide_runs_in_exhaustion_zone", 1000)
+	c.Require("user_runs", 500000)
+	c.Require("user_panic_site_kinds", 15) // {Next:Get, Next:Set, Release:Set} x {before, after} on mapdb and on the retaining store, x {before} under kvstore/debug
+	c.Require("user_panics_recovered_object_kept", 100000)
+	c.Require("user_calls_on_object_after_recovered_panic", 50000)
+	c.Require("user_numbers_issued_by_object_after_recovered_panic", 20000)
+	c.Require("user_runs_recovered_panic_then_crash_or_restart", 50000)
+	c.Require("user_store_errors_reported_after_applying", 50000)
+	c.Require("user_retaining_store_runs_with_fault", 100000)
+	c.Require("user_retained_slices_rechecked", 100000)
+	c.Require("user_key_slice_rechecked", 100000)
+	c.Require("user_debug_callback_runs", 50000)
+	c.Require("user_reentrant_release_of_parked_object_inside_store_call", 20000)
+	c.Require("user_reentrant_same_object_probes", 6)
+	c.Assume("a KVStore may keep the slice it is given by Set and may hand out its own slice from Get (the interface is silent; mapdb's BatchedMutations.Set keeps the slice until Commit); a store call may panic or report an error after it was applied (kvstore/flushkv.Set: write applied, Flush failed)")
 	c.Assume("a crash of the owning process is modelled by a panic out of the store call followed by abandoning the Sequence object; mapdb applies Set atomically")
 	c.Assume("errors.Is / panics of faultkv are the only injected faults; mapdb itself never fails")
 }
